@@ -1184,7 +1184,11 @@ fn merge(r: &Report, g: &mut Global, o: Out, path: &str) {
                     } else {
                         "tick"
                     };
-                    let proj = ["Head", "Snapshot", "TruthChannels", "Query"].iter().find(|p| what.contains(&format!("projection: {p}"))).copied().unwrap_or("?");
+                    let proj = ["Head", "Snapshot", "TruthChannels", "Query"]
+                        .iter()
+                        .find(|p| what.contains(&format!("projection: {p}")) || what.contains(&format!("shape: {p}")))
+                        .copied()
+                        .unwrap_or("other");
                     r.violation(
                         &format!("c16:coordinate-binding:{cls} reading changed although the history prefix is identical:{proj}"),
                         json!({"case": {"history": path}, "first_seen": what0, "now": what}),
@@ -1315,6 +1319,7 @@ fn main() {
     r.assume("resolved.observed_after_global_tick is a freshness watermark (function of the live global tick by contract) and the live parent-basis posture of a strand FRONTIER read is a function of current parent history (INV-S10): both are excluded from cross-state comparisons, and only those");
     r.assume("no replay checkpoints are stored in C16 states (optic witness basis CheckpointPlusTail names checkpoint configuration, not history)");
     r.assume("engine state is fingerprinted through its public accessors (Engine is not Debug)");
+    r.assume("read-only granularity: the full Debug fingerprint of runtime+provenance and the engine fingerprint are compared before/after every request group (all requests for one worldline; the whole optic menu); after EVERY single read a cheap probe (global tick, the runtime's interior-mutable scan counter, every frontier tick and provenance length) is compared");
 
     let mut g = Global {
         bound: HashMap::new(),
